@@ -18,7 +18,8 @@ CONSTANTS MaxNT,      \* 1..MaxNT targets
           MaxCalls,   \* selections per thread
           Modes,      \* subset of {"RoundRobin", "Random"}
           Record,     \* TRUE: keep the whole log (otherwise only the last selection is kept)
-          Dev         \* {} or sensitivity bugs: "NoLock", "IncrementOutsideLock", "WrapLate", "RandomOffByOne"
+          Dev         \* {} or sensitivity bugs: "NoLock", "IncrementOutsideLock", "SelectOnCloneWriteBack",
+                      \* "WrapLate", "RandomOffByOne"
 
 \* ---- pure part, shared with Trace_LoadBalancer -------------------------------------------------
 \* the target selected at index i (0-based) out of n: 0 stands for the out-of-bounds panic
@@ -45,6 +46,9 @@ Init == /\ nt \in 1..MaxNT /\ mode \in Modes
         /\ cnt = 0 /\ last = [t |-> 0, r |-> 1] /\ log = <<>>
 
 Holds(t) == holder = t \/ "NoLock" \in Dev
+\* SelectOnCloneWriteBack ("hold the mutex only briefly"): the balancer is CLONED under the lock, select_target runs
+\* on the clone with the lock released, and the clone is stored back under a second acquisition
+CloneDev == "SelectOnCloneWriteBack" \in Dev
 Select(t, r) == /\ cnt' = cnt + 1 /\ last' = [t |-> t, r |-> r]
                 /\ log' = IF Record THEN Append(log, [t |-> t, r |-> r]) ELSE log
 
@@ -60,11 +64,22 @@ Sel_Read(t) ==
      THEN \E r \in RandomChoices(nt, Dev) :
             /\ Select(t, r)
             /\ pc' = [pc EXCEPT ![t] = "unlock"] /\ loc' = loc /\ holder' = holder
+     ELSE IF CloneDev
+     THEN /\ loc' = [loc EXCEPT ![t] = index]            \* let mut balancer = lock().clone()
+          /\ pc' = [pc EXCEPT ![t] = "clone"] /\ holder' = 0
+          /\ UNCHANGED <<cnt, last, log>>
      ELSE /\ loc' = [loc EXCEPT ![t] = index]
           /\ Select(t, TargetAt(index, nt))
           /\ pc' = [pc EXCEPT ![t] = IF "IncrementOutsideLock" \in Dev THEN "relock" ELSE "write"]
           /\ holder' = IF "IncrementOutsideLock" \in Dev THEN 0 ELSE holder
   /\ UNCHANGED <<cfg, index, left>>
+
+\* balancer.select_target() on the clone, no lock held
+Sel_OnClone(t) ==
+  /\ pc[t] = "clone"
+  /\ Select(t, TargetAt(loc[t], nt))
+  /\ pc' = [pc EXCEPT ![t] = "relock"]
+  /\ UNCHANGED <<cfg, index, holder, left, loc>>
 
 Relock(t) ==
   /\ pc[t] = "relock" /\ holder = 0
@@ -85,13 +100,14 @@ Unlock(t) ==
   /\ pc' = [pc EXCEPT ![t] = "idle"] /\ left' = [left EXCEPT ![t] = left[t] - 1]
   /\ UNCHANGED <<cfg, index, loc, cnt, last, log>>
 
-Step(t) == Lock(t) \/ Sel_Read(t) \/ Relock(t) \/ Sel_Write(t) \/ Unlock(t)
+Step(t) == Lock(t) \/ Sel_Read(t) \/ Sel_OnClone(t) \/ Relock(t) \/ Sel_Write(t) \/ Unlock(t)
 A_Lock     == \E t \in threads : Lock(t)
 A_SelRead  == \E t \in threads : Sel_Read(t)
+A_OnClone  == \E t \in threads : Sel_OnClone(t)
 A_Relock   == \E t \in threads : Relock(t)
 A_SelWrite == \E t \in threads : Sel_Write(t)
 A_Unlock   == \E t \in threads : Unlock(t)
-Next == A_Lock \/ A_SelRead \/ A_Relock \/ A_SelWrite \/ A_Unlock
+Next == A_Lock \/ A_SelRead \/ A_OnClone \/ A_Relock \/ A_SelWrite \/ A_Unlock
 Spec == Init /\ [][Next]_vars /\ \A t \in All : WF_vars(t \in threads /\ Step(t))
 
 \* strictly in rotation, in the order of the critical sections: the k-th selection is target ((k-1) mod nt)+1
